@@ -634,12 +634,11 @@ func runTable(in, logPath string, seed int64, sum *tl.Summary) {
 			if rec != "Signer" || shape != s.Signed.Vk {
 				desc := fmt.Sprintf("sign-then-recover with %s chain %d type %d: recovered %s (specification: Signer), v encoding %q (specification %q)", how, s.Sg.Chain, s.Type, rec, shape, s.Signed.Vk)
 				if pending && rec == "Other" && shape == "u" {
-					// TODO-KNOWN-FINDING C03-F1: EIP155Signer with chain id 0 signs the nine-field
-					// hash but emits v = 27/28, which Sender then recovers over the six-field hash:
-					// the round trip yields a foreign address.  Exactly this fingerprint is
-					// reported as pending (see spec/codec/NOTES.md), everything else is a violation.
-					sum.Notes = append(sum.Notes, "PENDING-FINDING C03-F1: "+desc)
-					sum.Count("pending-C03-F1")
+					// Exact fingerprint of known finding C03-F1 (EIP155Signer with chain id 0 signs the
+					// nine-field hash but emits v = 27/28, which Sender recovers over the six-field hash).
+					// It is only counted here; checks/C03.py decides through known_findings.json whether
+					// it is reported as KNOWN-FINDING or as a violation.  Anything else is a violation.
+					notePending(sum, "C03-F1", desc, tl.M{"sign": s, "how": how, "recovered": rec, "shape": shape})
 				} else {
 					sum.Violate(desc, tl.M{"sign": s, "recovered": rec, "shape": shape})
 				}
@@ -707,6 +706,21 @@ func runTable(in, logPath string, seed int64, sum *tl.Summary) {
 	log.Emit(tl.M{"op": "end", "n": log.N})
 	sum.Steps = log.N
 	sum.Rule = "every TLC-enumerated (signer, signed-transaction class) row realised with a fresh key and a real signature; distinct = distinct (signer kind, tx type, v/r/s/parity/hash class, outcome) tuples, signing rows, hash rows and cache behaviours"
+}
+
+// notePending records a match of a recognised finding fingerprint in Summary.Extra["pending"].
+func notePending(sum *tl.Summary, id, desc string, sample any) {
+	p, _ := sum.Extra["pending"].(map[string]any)
+	if p == nil {
+		p = map[string]any{}
+		sum.Extra["pending"] = p
+	}
+	e, _ := p[id].(map[string]any)
+	if e == nil {
+		e = map[string]any{"count": 0, "desc": desc, "sample": sample}
+		p[id] = e
+	}
+	e["count"] = e["count"].(int) + 1
 }
 
 func mutateField(c *content, f string, r *rand.Rand) {
